@@ -531,6 +531,7 @@ def wrappers(ctx, env, jinja2):
     def qs(pairs):
         return "&".join(f"{quote_plus(str(k), safe='')}={quote_plus(str(v), safe='')}" for k, v in pairs)
     base_maps = [{"ab": 1}, {"a b": "c&d", "x": "é/ü"}, {"abc": 1, "k": "v w"}, {}, {"k": 1}, {"page": 1, "debug": True},
+                 {"a+b": "c+d e", "q?": "#frag%20=", "~-._": "*'()!"}, {"+": "+", " ": " "},
                  {"a": 1.0, "b": 1, "c": True, "d": 0, "e": False, "f": 0.0}]
     for m in base_maps:
         for make in (dict, lambda d: list(d.items()), lambda d: tuple(d.items()), types.MappingProxyType,
@@ -659,13 +660,58 @@ def matrix(ctx, jinja2):
             for a in ((), (0, "common"), (1, "floor"), (2, "ceil"), (-1, "common"), (1,), (0, "bogus")):
                 mx.apply("C23", "round", v, a, ("precision", "method"))
         for v in ("42", "0x1A", "abc", 3.9, None, True, "1e3", " 7 ", float("inf"), 10 ** 400, [1], Markup("12"), StrSub("13")):
-            for a in ((), (0, 10), (7, 16), (-1, 8), (5,)):
-                mx.apply("C23", "int", v, a, ("default", "base"))
-            for a in ((), (0.5,), ("d",)):
-                mx.apply("C23", "float", v, a, ("default",))
+            # the default comes back exactly as given, whatever its type
+            def ref_int(v=v, default=0, base=10):
+                try:
+                    return int(v, base) if isinstance(v, str) else int(v)
+                except (TypeError, ValueError, OverflowError):
+                    try:
+                        return int(float(v))
+                    except (TypeError, ValueError, OverflowError):
+                        return default
+
+            def ref_float(v=v, default=0.0):
+                try:
+                    return float(v)
+                except (TypeError, ValueError, OverflowError):
+                    return default
+            for a in ((), (0, 10), (7, 16), (-1, 8), (5,), (2.5,), ("7",), (True,), (None,), (-0.75, 16), (Markup("x"),)):
+                mx.apply("C23", "int", v, a, ("default", "base"), expect=lambda a=a, ref_int=ref_int: ref_int(*((v,) + a)))
+            for a in ((), (0.5,), ("d",), (7,), (True,), (None,)):
+                mx.apply("C23", "float", v, a, ("default",), expect=lambda a=a, ref_float=ref_float: ref_float(*((v,) + a)))
         mx.history_pass()
     finally:
         mx.close()
+    # configuration history: a policy changed between two applications on ONE environment must take
+    # effect at once (nothing derived from env.policies may be cached), also in an overlay made before
+    for mk in (lambda: jinja2.Environment(), lambda: jinja2.Environment(enable_async=True)):
+        env = mk()
+        ov = env.overlay()
+        text = "foo bar baz qux quux"
+        for leeway in (5, 0, 3, 5):
+            env.policies["truncate.leeway"] = leeway
+            fresh = jinja2.Environment()
+            fresh.policies["truncate.leeway"] = leeway
+            want = fresh.call_filter("truncate", text, (15,))
+            for which, e in (("environment", env), ("overlay", ov)):
+                ctx.count("policy_history")
+                ctx.case(key=("policy_history", env.is_async, which, leeway))
+                got = e.from_string("{{ t|truncate(15) }}").render(t=text) if not e.is_async else \
+                    mx_render_async(e, "{{ t|truncate(15) }}", t=text)
+                if got != want or e.call_filter("truncate", text, (15,)) != want:
+                    ctx.reject({"filter": "truncate", "policy": "truncate.leeway", "value": leeway, "through": which},
+                               f"after changing the policy on the same environment the result is {got!r}, a fresh environment gives {want!r}", None)
+                else:
+                    ctx.validated()
+
+
+def mx_render_async(env, src, **data):
+    import asyncio
+    loop = asyncio.new_event_loop()
+    try:
+        return loop.run_until_complete(env.from_string(src).render_async(**data))
+    finally:
+        loop.close()
 
 
 # ------------------------------------------------------------------ regenerated obligations
@@ -718,7 +764,7 @@ Theorem table_total_now :
                     | SRaises _, _ | _, SRaises _ => false | _, _ => true end) all_kinds = true.
 Proof. vm_compute. reflexivity. Qed.
 """
-    ctx.coq_obligation("FiltGen_c23", text, n_obligations=4)
+    ctx.pending_parts.append(("Handlers", text, 4))
     ctx.extra["except_clauses"] = {"do_int": [list(h) for h in hi], "do_float": [list(h) for h in hf]}
     return letters
 
@@ -734,10 +780,12 @@ def run(ctx):
         "\\w is modelled on ASCII for the wordcount tie (the theorem is for any character class)",
         "the .1f formatting of filesizeformat is an oracle; float(value) is exact for the integers compared exactly",
     ]
-    ctx.proof("C23")
+    ctx.pending_parts = []
     letters = regenerated(ctx)
-    from .c22 import source_equations
+    from .c22 import source_equations, flush_obligations
+    from . import filt_common as fc
     source_equations(ctx, "truncate")
+    bg = fc.Background(lambda: (ctx.proof("C23"), flush_obligations(ctx, "Gen_filt_c23")))
     env = jinja2.Environment()
     env2 = jinja2.Environment()
     env2.policies["truncate.leeway"] = 0
@@ -749,6 +797,7 @@ def run(ctx):
     tie_filesize(ctx, env)
     wrappers(ctx, env, jinja2)
     matrix(ctx, jinja2)
+    bg.join()
 
 
 def replay(ctx, data):
